@@ -263,57 +263,63 @@ repatch()
 import resource, gc
 gc.collect()
 gc.freeze()        # the children do not traverse (and thereby copy) the warmed-up heap
+BATCH = int(sys.argv[5]) if len(sys.argv) > 5 else 40
 
-def in_fork(item):
+def run_batch(items, out):
+    """compile the items in ONE forked copy of this process; returns the items that still have to be done
+    (after a death of the copy: everything behind the text that killed it)"""
     r, w = os.pipe()
     pid = os.fork()
     if pid == 0:
         code = 0
         try:
             os.close(r)
-            if per_text_timeout:
-                # backup for hangs inside C code, where the SIGPROF handler cannot run
-                resource.setrlimit(resource.RLIMIT_CPU, (per_text_timeout * 2 + 10, per_text_timeout * 2 + 20))
-            try:
-                rec = compile_one(item)
-            except BaseException as e:
-                rec = {"id": item["id"], "died": "driver: %s: %s" % (type(e).__name__, str(e)[:200])}
-            data = json.dumps(rec).encode()
-            off = 0
-            while off < len(data):
-                off += os.write(w, data[off:off + 65536])
+            wf = os.fdopen(w, "w")
+            for item in items:
+                if per_text_timeout:
+                    # backup for hangs inside C code, where the SIGPROF handler cannot run: the copy is killed
+                    used = int(time.process_time()) + 1
+                    resource.setrlimit(resource.RLIMIT_CPU, (used + per_text_timeout * 2 + 10, resource.RLIM_INFINITY))
+                try:
+                    rec = compile_one(item)
+                except BaseException as e:
+                    rec = {"id": item["id"], "died": "driver: %s: %s" % (type(e).__name__, str(e)[:200])}
+                wf.write(json.dumps(rec) + "\n")
+                wf.flush()
+            wf.close()
         except BaseException:
             code = 3
         finally:
             os._exit(code)
     os.close(w)
-    chunks = []
-    while True:
-        c = os.read(r, 1 << 16)
-        if not c:
-            break
-        chunks.append(c)
-    os.close(r)
+    got = 0
+    with os.fdopen(r, "r") as rf:
+        for line in rf:
+            try:
+                rec = json.loads(line)
+            except ValueError:
+                break
+            out.write(json.dumps(rec) + "\n")
+            got += 1
+    out.flush()
     _, status = os.waitpid(pid, 0)
-    rec = None
-    if chunks:
-        try:
-            rec = json.loads(b"".join(chunks))
-        except ValueError:
-            rec = None
-    if rec is None:
-        if os.WIFSIGNALED(status):
-            sig = os.WTERMSIG(status)
-            rec = {"id": item["id"], "died": ("cpu limit (signal %d)" if sig in (signal.SIGXCPU, signal.SIGKILL) else "signal %d") % sig}
-        else:
-            rec = {"id": item["id"], "died": "exit %d" % os.WEXITSTATUS(status)}
-    return rec
+    if got >= len(items):
+        return []
+    item = items[got]
+    if os.WIFSIGNALED(status):
+        sig = os.WTERMSIG(status)
+        died = ("cpu limit (signal %d)" if sig in (signal.SIGXCPU, signal.SIGKILL) else "signal %d") % sig
+    else:
+        died = "exit %d" % os.WEXITSTATUS(status)
+    out.write(json.dumps({"id": item["id"], "died": died}) + "\n")
+    out.flush()
+    return items[got + 1:]
 
 with open(outfile, "a") as out:
-    for item in work:
-        rec = in_fork(item)
-        out.write(json.dumps(rec) + "\n")
-        out.flush()
+    for k in range(0, len(work), BATCH):
+        todo = work[k:k + BATCH]
+        while todo:
+            todo = run_batch(todo, out)
     out.write(json.dumps({"done": len(work)}) + "\n")
 '''
 
@@ -324,9 +330,11 @@ def b64(text_or_bytes):
     return base64.b64encode(text_or_bytes).decode("ascii")
 
 
-def compile_texts(items, workdir, jobs=4, per_text_timeout=120, shard_timeout=3000, tag="w"):
+def compile_texts(items, workdir, jobs=4, per_text_timeout=120, shard_timeout=3000, tag="w", batch=40):
     """items: [{"id", "b64", "kind", optional "cplus"/"directives"/"global_options"}].
-    Returns {id: record}; a text whose child died gets {"died": "<signal/rc>"}; the rest of the shard is re-run."""
+    Returns {id: record}.  Each shard is one warmed-up compiler process that compiles its texts in forked copies of
+    itself, `batch` texts per copy (batch=1: every text in a pristine copy).  A text that kills its copy gets
+    {"died": "<signal/rc>"}; if the shard process itself dies the rest of the shard is re-run."""
     import concurrent.futures
     os.makedirs(workdir, exist_ok=True)
     drv = os.path.join(workdir, "c43_driver.py")
@@ -347,7 +355,7 @@ def compile_texts(items, workdir, jobs=4, per_text_timeout=120, shard_timeout=30
                 json.dump(todo, f)
             if os.path.exists(of):
                 os.unlink(of)
-            ch = core.run_child(drv, [wf, of, workdir, str(per_text_timeout)], with_snapshot=True,
+            ch = core.run_child(drv, [wf, of, workdir, str(per_text_timeout), str(batch)], with_snapshot=True,
                                 timeout=shard_timeout, mem_mb=6144)
             done = False
             if os.path.exists(of):
